@@ -191,7 +191,8 @@ def ftoken(v):
 
 
 FSHAPES = ("fs", "fl", "fz", "fi", "fd", "fx")
-_SPECIAL = {"nan": float("nan"), "pinf": float("inf"), "ninf": float("-inf"), "pz": 0.0, "nz": -0.0}
+# "nnan" is a NaN with the sign bit set (printf writes "-nan"); the abstraction maps every NaN to "nan"
+_SPECIAL = {"nan": float("nan"), "nnan": -float("nan"), "pinf": float("inf"), "ninf": float("-inf"), "pz": 0.0, "nz": -0.0}
 
 
 def ffromtoken(s):
@@ -462,6 +463,8 @@ def instantiate(t, rng):
                             if not 1e-4 <= x < 1:
                                 slots[key] = x if e == "fa" else -x
                         c.append(ftoken(slots[key]))
+                    elif e == "nan":
+                        c.append("nan" if rng.random() < 0.7 else "nnan")
                     elif e in FSHAPES:
                         key = (e, f["w"])
                         if key not in slots:
@@ -513,7 +516,7 @@ def random_int(rng, k, w):
 def random_float(rng, w, ft):
     u = rng.random()
     if u < 0.25:
-        return rng.choice(["nan", "pinf", "ninf", "pz", "nz"])
+        return rng.choice(["nan", "nnan", "pinf", "ninf", "pz", "nz"])
     if u < 0.40:
         return ftoken(shape_value(rng.choice(FSHAPES), w, rng))
     if ft == "gen":
@@ -560,6 +563,7 @@ def signatures(rec, k, clauses, hz, dl):
     class), never raw values"""
     o = rec["obs"][k]
     dc = dl.split("/")[0]
+    dg = dc + "{G}"                 # Tally.flush decides whether the syntactic group of the delimiter belongs to the signature
     out = []
     rows = [c for c in clauses if c in ROWS_CLAUSES]
     if rows:
@@ -570,23 +574,44 @@ def signatures(rec, k, clauses, hz, dl):
         else:
             for c in rows:
                 stage = ("@" + o["stage"]) if c == "rows_error" else ""
-                out.append(("%s|%s%s|delim=%s|nohazard|kinds=%s|order=%s" % (o["entry"], c, stage, dl, kinds_of(rec["t"]), o["order"]), c))
+                out.append(("%s|%s%s|delim=%s|nohazard|kinds=%s|order=%s" % (o["entry"], c, stage, dg, kinds_of(rec["t"]), o["order"]), c))
     for c in clauses:
         if c not in ROWS_CLAUSES:
-            out.append(("%s|%s|order=%s%s" % (o["entry"], c, o["order"], "|delim=" + dl if c == "hdr_delim" else ""), c))
+            out.append(("%s|%s|order=%s%s" % (o["entry"], c, o["order"], "|delim=" + dg if c == "hdr_delim" else ""), c))
     return out
 
 
 class Tally:
+    """violations are collected per signature template and reported at the end: the syntactic group of a plain
+    delimiter (percent, pyquote, letter, ...) becomes part of the signature only when the failures of a template are
+    confined to one or two groups, i.e. when the defect is specific to the delimiter character"""
+
     def __init__(self):
         self.by_sig = {}
+        self.pending = {}               # template -> {group: [count, [(what, case), ...]]}
         self.rows_failed = set()        # (record id, obs index) whose rows did not come back
 
-    def add(self, ctx, sig, what, case, cap=40):
-        n = self.by_sig.get(sig, 0)
-        self.by_sig[sig] = n + 1
-        if n < cap:
-            ctx.violation(sig, what, case)
+    def add(self, ctx, template, dl, what, case, cap=40):
+        grp = dl.split("/")[1] if "/" in dl else ""
+        ent = self.pending.setdefault(template, {}).setdefault(grp, [0, []])
+        ent[0] += 1
+        if len(ent[1]) < cap:
+            ent[1].append((what, case))
+
+    def flush(self, ctx, cap=40, force=None):
+        for template in sorted(self.pending):
+            groups = self.pending[template]
+            specific = "delim=plain{G}" in template and (len(groups) <= 2 if force is None else force)
+            for grp in sorted(groups):
+                sig = template.replace("{G}", "/" + grp if specific else "")
+                n, items = groups[grp]
+                for what, case in items:
+                    if self.by_sig.get(sig, 0) < cap:
+                        case["delim_specific"] = specific
+                        ctx.violation(sig, what, case)
+                    self.by_sig[sig] = self.by_sig.get(sig, 0) + 1
+                self.by_sig[sig] += n - len(items)
+        self.pending = {}
 
 
 def judge(ctx, recs, what, tally, meta=None):
@@ -620,7 +645,7 @@ def judge(ctx, recs, what, tally, meta=None):
                         "failing": sorted(per[k]), "hazard": hz, "delim_class": dl}
                 if case["ct"] is None:
                     case["ct"] = {"fields": r["t"]["fields"], "rows": r["t"]["rows"]}
-                tally.add(ctx, sig, "%s with delim %s (%s, order %s): clause '%s' of C04 violated [%s]" %
+                tally.add(ctx, sig, dl, "%s with delim %s (%s, order %s): clause '%s' of C04 violated [%s]" %
                           ("sfile.write/read" if o["entry"] == "sfile" else "Recfile.write/read", dname(r["delim"]), dl, o["order"],
                            clause, ",".join(sorted(per[k]))), case)
     return rejects
@@ -720,21 +745,24 @@ def run(ctx):
         raise MachineryError("the delimiter plan leaves delimiters thinly covered: %s" % thin)
     del cases
     ctx.log("replaying %d tables, %d (table, delimiter) records over %d delimiters" % (ntab, len(jobs), len(quant)))
-    binding, stats = {}, {"records": 0, "cycles": 0}
-    probe = replay_and_judge(ctx, jobs, preds, tally, "judge replayed tables (TextCodecTrace)", binding, stats, nsample=5)
-    nrep = stats["records"]
-    # 3. larger seeded tables (code -> spec): the listed delimiters and others of the catalogue
-    nrand = RANDOM_TABLES[tier]
-    rrng = random.Random(ctx.seed * 104729 + 5)
-    others = [d for d in quant if d not in LISTED]
-    rjobs = []
-    for n in range(nrand):
-        ct = random_table(rrng)
-        ds = list(LISTED) if tier == "thorough" else [LISTED[n % 6], LISTED[(n + 2 + n // 6 % 3) % 6]]
-        ds += rrng.sample(others, 2 if tier == "thorough" else 1)
-        for delim in ds:
-            rjobs.append((len(jobs) + len(rjobs) + 1, ct, delim, plan(n, ct, tier)))
-    replay_and_judge(ctx, rjobs, None, tally, "judge seeded larger tables (TextCodecTrace)", None, stats, nsample=1)
+    try:
+        binding, stats = {}, {"records": 0, "cycles": 0}
+        probe = replay_and_judge(ctx, jobs, preds, tally, "judge replayed tables (TextCodecTrace)", binding, stats, nsample=5)
+        nrep = stats["records"]
+        # 3. larger seeded tables (code -> spec): the listed delimiters and others of the catalogue
+        nrand = RANDOM_TABLES[tier]
+        rrng = random.Random(ctx.seed * 104729 + 5)
+        others = [d for d in quant if d not in LISTED]
+        rjobs = []
+        for n in range(nrand):
+            ct = random_table(rrng)
+            ds = list(LISTED) if tier == "thorough" else [LISTED[n % 6], LISTED[(n + 2 + n // 6 % 3) % 6]]
+            ds += rrng.sample(others, 2 if tier == "thorough" else 1)
+            for delim in ds:
+                rjobs.append((len(jobs) + len(rjobs) + 1, ct, delim, plan(n, ct, tier)))
+        replay_and_judge(ctx, rjobs, None, tally, "judge seeded larger tables (TextCodecTrace)", None, stats, nsample=1)
+    finally:
+        tally.flush(ctx)             # violations established so far stand even if a later stage stops
     # 4. the inherently ambiguous delimiters: observed for the record, nothing is demanded (TLC accepts whatever came back)
     ambiguous = observe_ambiguous(ctx, amb_tables, len(jobs) + len(rjobs))
     # 5. binding self-test: corrupted observations must be rejected, each with its own clause
@@ -876,10 +904,16 @@ def selftest(ctx, probe):
         (9, lambda o: set_(o, ["err"], "RuntimeError"), "rows_error"),
         (10, lambda o: set_(o, ["fields", si, "sh"], [2]), "shapes"),
     ]
+    # the delimiter classification binds: the same corruption is rejected under the percent sign (and classified)
+    # and demands nothing under a delimiter outside the quantifier
+    pct, amb = mut(11, muts[6][1]), mut(12, muts[6][1])
+    pct["dcode"], amb["dcode"] = ord("%"), ord("e")
     saved = ctx.traces
-    rej = tracecheck.validate(ctx, "TextCodecTrace.tla", [good] + [mut(i, fn) for i, fn, _ in muts],
+    rej = tracecheck.validate(ctx, "TextCodecTrace.tla", [good] + [mut(i, fn) for i, fn, _ in muts] + [pct, amb],
                               what="self-test: corrupted observations rejected, each by its clause", workers=1)
     ctx.traces = saved
+    if "dl:plain/percent" not in rej.get(11, []) or "1:rows_count" not in rej.get(11, []) or 12 in rej:
+        raise MachineryError("binding self-test failed: delimiter classification (%s / %s)" % (rej.get(11), rej.get(12)))
     if 1 in rej:
         raise MachineryError("binding self-test: the uncorrupted record was rejected: %s" % rej[1])
     for i, _, clause in muts:
@@ -892,4 +926,6 @@ def replay(ctx, case):
     rec = run_record((1, ct, delim, [(case["entry"], case["order"])]))
     print("replay wrote   :", rec["t"]["rows"])
     print("replay observed:", {k: rec["obs"][0][k] for k in ("err", "stage", "rows", "fields", "hdr")})
-    judge(ctx, [rec], "replay", Tally(), {1: {"ct": ct}})
+    tally = Tally()
+    judge(ctx, [rec], "replay", tally, {1: {"ct": ct}})
+    tally.flush(ctx, force=case.get("delim_specific"))
